@@ -25,6 +25,10 @@ def rand_dag(g, p, density=None, weighted=True, dtype=float):
         for b in range(a + 1, p):
             if g.random() < density:
                 W[perm[a], perm[b]] = signed_weight(g) if weighted else 1.0
+    if weighted and p >= 2 and g.random() < 0.06:
+        # a weight that is tiny but not zero (below the 1e-12 tolerance some helpers use)
+        a, b = sorted(g.sample(range(p), 2))
+        W[perm[a], perm[b]] = g.choice([1e-13, -1e-13, 5e-13])
     return W.astype(dtype)
 
 
